@@ -184,7 +184,11 @@ func fixStyle(p *Profile, q m.Num, st m.NumStyle) m.NumStyle {
 }
 
 func GenAmount(t *rapid.T, p *Profile, sym string, maxScale, maxDigits int) *m.Amount {
-	q := GenNum(t, maxScale, maxDigits)
+	return GenAmountFor(t, p, sym, GenNum(t, maxScale, maxDigits))
+}
+
+// GenAmountFor draws a notation (style, sign and commodity placement) for a given quantity.
+func GenAmountFor(t *rapid.T, p *Profile, sym string, q m.Num) *m.Amount {
 	a := &m.Amount{Q: q, Sym: sym, Style: fixStyle(p, q, GenStyle(t, p))}
 	if sym != "" {
 		if m.IsCurrency(sym) {
